@@ -7,6 +7,7 @@ import (
 	"math"
 	"os"
 	"path/filepath"
+	"reflect"
 	"sort"
 	"strings"
 
@@ -34,6 +35,10 @@ func canonValue(v any) string {
 		return fmt.Sprintf("bool:%v", x)
 	case bcl.Block:
 		return canonBlock(x)
+	}
+	switch reflect.ValueOf(v).Kind() {
+	case reflect.Pointer, reflect.Chan, reflect.Func, reflect.UnsafePointer:
+		return fmt.Sprintf("?%T", v) // no addresses in descriptions
 	}
 	return fmt.Sprintf("?%T:%v", v, v)
 }
